@@ -215,4 +215,29 @@ def like(v, name='h'):
         return VTuple([like(x, name) for x in v.a['items']])
     if v.ty in ('const', 'func', 'cls', 'obj'):
         return v
+    if v.ty == 'hlist':
+        return Val('hlist', None, prefix=v.a['prefix'], tail=like(v.a['tail'], name), elem=v.a['elem'])
     raise Unsupported('havoc of ' + v.ty)
+
+
+def retype(v, ty):
+    """convert a static list value to the symbolic list type a loop specification declares for it"""
+    from z3 import Concat, Unit, Empty
+    from .sorts import seqsort
+    if ty.startswith('seq['):
+        el = ty[4:-1]
+        if v.ty == 'seq':
+            return v
+        if v.ty == 'list':
+            zs = [Unit(elem_z(x, el)) for x in v.a['items']]
+            z = Empty(seqsort(el)) if not zs else (zs[0] if len(zs) == 1 else Concat(*zs))
+            return VSeq(z, el)
+    if ty.startswith('hlist['):
+        n, el = ty[6:-1].split(',')
+        n = int(n)
+        if v.ty == 'hlist':
+            return v
+        if v.ty == 'list' and len(v.a['items']) >= n:
+            rest = VList(v.a['items'][n:])
+            return Val('hlist', None, prefix=v.a['items'][:n], tail=retype(rest, 'seq[%s]' % el.strip()), elem=el.strip())
+    raise Unsupported('cannot view %s as %s' % (v.ty, ty))
